@@ -174,6 +174,7 @@ type env struct {
 	flapWg     sync.WaitGroup
 	txInvSeen  atomic.Int64
 	notes      []string
+	api        *apiState // peer-state API family (api.go); nil otherwise
 }
 
 func (e *env) note(f string, a ...any) {
@@ -892,6 +893,11 @@ func Scenario(seed int64, k int, res *l2.Result) {
 	Run(PlanFromSeed(seed, k), res)
 }
 
+// APIScenario is scenario j of the peer-state API family (apiplan.go).
+func APIScenario(seed int64, j int, res *l2.Result) {
+	Run(APIPlanFromSeed(seed, j), res)
+}
+
 // Outcome parts of the fingerprint.
 type outcome struct {
 	stop    string // ok | late | hang | slow
@@ -909,6 +915,10 @@ func Run(p Plan, res *l2.Result) {
 	defer func() {
 		res.Fingerprint = fmt.Sprintf("%s|%s|mute=%s|calls=%s|stop=%s callers=%s reopen=%s",
 			p.State, p.PeerMix(), orDash(p.MuteAtStop), p.InflightKinds(), oc.stop, oc.callers, oc.reopen)
+		if p.API != nil {
+			res.Fingerprint += fmt.Sprintf("|api=%s callers=%s", p.API.Mode(), bucket(p.API.Callers))
+			e.reportAPI(reached && oc.stop != "not-called")
+		}
 		res.Nontrivial = reached && oc.stop != "not-called"
 		res.Count("state/"+p.State, 1)
 		if reached {
@@ -955,6 +965,15 @@ func Run(p Plan, res *l2.Result) {
 		e.branch, e.branchDepth = br, d
 	}
 	e.addPeers()
+	copts := l2.ClientOpts{PersistToDisk: p.Persist, BlockCache: p.BlockCache}
+	var connect []string // nil = every registered peer
+	if p.API != nil {
+		connect = e.setupAPI()
+		copts.NameResolver = e.api.res.lookup
+		// Whatever way the scenario ends: no lookup stays held, no caller
+		// keeps running.
+		defer func() { e.api.res.open(); e.api.endCallers() }()
+	}
 	neutrino.VerifSetPointHook(e.hook.fn)
 	defer neutrino.VerifSetPointHook(nil)
 
@@ -986,7 +1005,7 @@ func Run(p Plan, res *l2.Result) {
 	for _, sp := range e.peers[1:] {
 		w.Net.Refuse(sp.Addr, true)
 	}
-	if err := w.StartClient(nil, l2.ClientOpts{PersistToDisk: p.Persist, BlockCache: p.BlockCache}); err != nil {
+	if err := w.StartClient(connect, copts); err != nil {
 		res.Inconcl("client start failed: " + err.Error())
 		return
 	}
@@ -1048,6 +1067,16 @@ func Run(p Plan, res *l2.Result) {
 		reached, parkedPoint = e.setupPostSync()
 	}
 
+	// Peer-state API family: the callers and the designated call whose
+	// lookup is held inside the peer handler start now.
+	gateHeld := false
+	if p.API != nil && reached {
+		if !e.startAPI() {
+			reached = false
+		}
+		gateHeld = e.api.gateHeld
+	}
+
 	// --- Stop -------------------------------------------------------------
 	if p.StopDelayMs > 0 {
 		time.Sleep(time.Duration(p.StopDelayMs) * time.Millisecond)
@@ -1077,24 +1106,53 @@ func Run(p Plan, res *l2.Result) {
 	var stopErr error
 	go func() { stopErr = <-stopCh; close(stopDone) }()
 	tFrom := tCall
+	// What the harness holds is released a planned time after CALLING Stop
+	// (a parked pause point, a held name lookup; in the order of their times).
+	type release struct {
+		ms int
+		fn func()
+	}
+	var rels []release
 	if parkedPoint {
-		time.Sleep(time.Duration(p.ReleaseMs) * time.Millisecond)
-		select {
-		case <-stopDone:
-			// Stop did not need the parked goroutine: fine as well.
-			res.Count("stop_returned_while_point_parked", 1)
-		default:
+		rels = append(rels, release{p.ReleaseMs, func() {
+			select {
+			case <-stopDone:
+				// Stop did not need the parked goroutine: fine as well.
+				res.Count("stop_returned_while_point_parked", 1)
+			default:
+			}
+			close(e.hook.release)
+			res.Count("points_parked/"+p.Point(), 1)
+			e.note("pause point released")
+		}})
+	}
+	if gateHeld {
+		rels = append(rels, release{p.API.GateReleaseMs, func() {
+			select {
+			case <-stopDone:
+				res.Count("stop_returned_while_lookup_held", 1)
+			default:
+			}
+			e.api.res.open()
+			e.note("held lookup answered")
+		}})
+	}
+	sort.SliceStable(rels, func(i, j int) bool { return rels[i].ms < rels[j].ms })
+	for _, rl := range rels {
+		if d := time.Until(tCall.Add(time.Duration(rl.ms) * time.Millisecond)); d > 0 {
+			time.Sleep(d)
 		}
-		close(e.hook.release)
+		rl.fn()
 		tFrom = time.Now()
-		res.Count("points_parked/"+p.Point(), 1)
-		e.note("pause point released")
 	}
 	late := false
 	select {
 	case <-stopDone:
 	case <-time.After(StopWatchdog):
 		e.note("Stop watchdog fired")
+		// The application callers end (each finishes the call it is in, or
+		// stays parked in it) before the process is observed.
+		e.quiesceAPI(3 * time.Second)
 		returned, hi := e.hangArgument(int(stopGid.Load()), "", stopDone, false)
 		if !returned {
 			oc.stop = "slow"
@@ -1132,6 +1190,9 @@ func Run(p Plan, res *l2.Result) {
 	e.stopRetAt = time.Now()
 	e.mu.Unlock()
 	close(e.stopReturned)
+	if e.api != nil {
+		e.api.endCallers()
+	}
 	oc.stop = "ok"
 	if late {
 		oc.stop = "late"
@@ -1544,10 +1605,12 @@ func (e *env) awaitCalls(after bool, witness func(map[string]any) any) int {
 				fmt.Sprintf("%s (%s, %s): %s", c.Kind, c.Desc, phase, c.Wrong), witness(nil))
 		}
 		if after && c.Err == "" {
-			switch c.Kind {
-			case CGetBlock, CGetCF:
+			switch {
+			case c.Kind == CGetBlock || c.Kind == CGetCF:
 				// served from a cache: a valid result without the network
 				e.res.Count("after_stop_served_from_cache/"+c.Kind, 1)
+			case strings.HasPrefix(c.Kind, apiKind):
+				// no shutdown error in these signatures; returning is the rule
 			default:
 				e.res.Violate(evid.Sig("accepted-after-stop", c.Kind),
 					fmt.Sprintf("%s made after Stop had returned reported success", c.Kind), witness(nil))
@@ -1580,6 +1643,9 @@ func (e *env) startAfterStop() {
 		_, err := e.src.Subscribe(0)
 		return err, ""
 	})
+	if e.api != nil {
+		e.apiSweep()
+	}
 }
 
 func (e *env) summarise() string {
